@@ -29,7 +29,10 @@ def main():
             print("replay: property holds on this input now" if ok else f"VIOLATION property={pid} replay={a.replay}")
             return 0 if ok else 1
         common.build_and_audit(ctx, mod)
-        mod.run(ctx)
+        try:
+            mod.run(ctx)
+        except common.EnoughViolations:
+            pass
         return common.finish(ctx, mod)
     except Exception:
         traceback.print_exc()
